@@ -12,6 +12,16 @@
 #include <cstring>
 #include <new>
 
+// Under AddressSanitizer / ThreadSanitizer the sanitizer runtime owns malloc: no interposition, counters stay at zero
+#if defined(__SANITIZE_ADDRESS__) || defined(__SANITIZE_THREAD__)
+#define VH_NO_ALLOC_GUARD 1
+#endif
+
+#ifdef VH_NO_ALLOC_GUARD
+static volatile long long vh_heap_live = 0;
+static volatile long long vh_heap_overruns = 0;
+static volatile long long vh_heap_allocs = 0;
+#else
 extern "C" {
 void* __libc_malloc(size_t);
 void __libc_free(void*);
@@ -110,4 +120,5 @@ void operator delete(void* p) noexcept { free(p); }
 void operator delete[](void* p) noexcept { free(p); }
 void operator delete(void* p, size_t) noexcept { free(p); }
 void operator delete[](void* p, size_t) noexcept { free(p); }
+#endif  // VH_NO_ALLOC_GUARD
 #endif
